@@ -232,7 +232,8 @@ class Explorer:
                 if i < len(v[2]):
                     return v[2][i]
             if v[0] == "sym":
-                return SYM(self.cap(("field", v[1], el[2] if len(el) > 2 and el[2] is not None else i)))
+                nm = el[2] if len(el) > 2 else None
+                return SYM(self.cap(("field", v[1], i if (nm is None or str(nm).isdigit()) else nm)))
             return SYM(("field", v, i))
         if el[0] == "idx":
             if v[0] == "sym":
@@ -886,11 +887,12 @@ class Explorer:
             return SYM(self.cap(("deref", v[1])))
         return v
 
-    def havoc_ref(self, st, v, tag, site):
+    def havoc_ref(self, st, v, tag, site, res=None):
         if v[0] == "ref":
             root, path = v[1], v[2]
             old = self.read_loc(st, root, path)
-            new = SYM(self.cap(("mut", tag, site, old)))
+            oldc = self.intern(old) if term_depth(old) > 3 else old
+            new = SYM(("mut", tag, site, oldc, res))
             if root[0] != "L":
                 st.effects.append(("write", root, path, new, site))
             self.write_loc(st, root, path, new)
@@ -910,7 +912,7 @@ class Explorer:
         # &mut arguments are havocked (after computing the result term from the pre-state)
         mut_idx = self.mut_args(path, info, args)
         for i in mut_idx:
-            self.havoc_ref(st, args[i], (path, i), site)
+            self.havoc_ref(st, args[i], (path, i), site, res[1] if res[0] == "sym" else None)
         self.write_place(st, fr, dest, res, site)
 
     def mut_args(self, path, info, args):
@@ -999,7 +1001,7 @@ class Explorer:
                 if not self.constrain(st, ("discr", v[1], adt), "eq", self.variant_discr(adt, good)):
                     self.finish_path(st, None, "diverge")
                     return "stop"
-                return ret(SYM(self.cap(("field", v[1], good))))
+                return ret(SYM(self.cap(("field", v[1], 0))))
             return None
         if p == "std::ops::Try::branch":
             v = args[0]
@@ -1014,11 +1016,11 @@ class Explorer:
 
             def mk(variant):
                 if variant == good:
-                    inner = v[3][0] if v[0] == "agg" else SYM(self.cap(("field", v[1], good)))
+                    inner = v[3][0] if v[0] == "agg" else SYM(self.cap(("field", v[1], 0)))
                     return AGG(CF, "Continue", (inner,))
                 if adt.endswith("Option"):
                     return AGG(CF, "Break", (AGG(adt, "None"),))
-                inner = v[3][0] if v[0] == "agg" else SYM(self.cap(("field", v[1], bad)))
+                inner = v[3][0] if v[0] == "agg" else SYM(self.cap(("field", v[1], 0)))
                 return AGG(CF, "Break", (AGG(adt, "Err", (inner,)),))
             if v[0] == "agg":
                 return ret(mk(v[2]))
